@@ -9,6 +9,9 @@
 #include "fse.h"
 #include "bitstream.h"
 #include "zvh_common.h"
+#include "zstd_internal.h"              /* LL_base, LL_bits, OF_base, OF_bits, ML_base, ML_bits */
+#include "zstd_decompress_internal.h"   /* ZSTD_seqSymbol, ZSTD_BUILD_FSE_TABLE_WKSP_SIZE */
+#include "zstd_decompress_block.h"      /* ZSTD_buildFSETable */
 
 /* parse a comma-separated list of integers into a malloc'd array */
 static long* parse_list(const char* s, size_t* n) {
@@ -106,6 +109,27 @@ int main(void) {
                 printf("\n");
             }
             free(wksp); free(dt);
+        } else if (!strcmp(op, "seqtable")) {
+            /* seqtable <tableLog> <c0,c1,...> (alphabet chosen by the number of counts: <= 29 offsets... no: by the 3rd token) : handled below */
+            printf("err usage\n");
+        } else if (!strcmp(op, "seqtableLL") || !strcmp(op, "seqtableOF") || !strcmp(op, "seqtableML")) {
+            /* the decoder's sequence-table builder ZSTD_buildFSETable (zstd_decompress_block.c), both BMI2 settings must agree: ok cells=<nextState:nbAddBits:nbBits:baseValue,...> */
+            const U32* base = op[8] == 'L' ? LL_base : op[8] == 'O' ? OF_base : ML_base;
+            const U8* bits = op[8] == 'L' ? LL_bits : op[8] == 'O' ? OF_bits : ML_bits;
+            unsigned const maxAlpha = op[8] == 'L' ? MaxLL : op[8] == 'O' ? MaxOff : MaxML;
+            if (maxSV > maxAlpha || tableLog > 9) { printf("err usage\n"); }
+            else {
+                U32 const tableSize = 1u << tableLog; U32 u; int b, same = 1;
+                ZSTD_seqSymbol* dt[2]; U32 wksp[ZSTD_BUILD_FSE_TABLE_WKSP_SIZE_U32 + 8];
+                for (b = 0; b < 2; b++) { dt[b] = (ZSTD_seqSymbol*)calloc(tableSize + 1, sizeof(ZSTD_seqSymbol)); memset(wksp, 0, sizeof wksp);
+                    ZSTD_buildFSETable(dt[b], norm, maxSV, base, bits, tableLog, wksp, sizeof wksp, b); }
+                for (u = 1; u <= tableSize; u++) if (memcmp(&dt[0][u], &dt[1][u], sizeof(ZSTD_seqSymbol))) same = 0;
+                if (!same) printf("err bmi2-differs\n");
+                else { printf("ok cells=");
+                    for (u = 1; u <= tableSize; u++) printf("%s%u:%u:%u:%u", u > 1 ? "," : "", (unsigned)dt[0][u].nextState, (unsigned)dt[0][u].nbAdditionalBits, (unsigned)dt[0][u].nbBits, (unsigned)dt[0][u].baseValue);
+                    printf("\n"); }
+                free(dt[0]); free(dt[1]);
+            }
         } else if (!strcmp(op, "enc")) {
             size_t n = 0, err; long* syms = a3 ? parse_list(a3, &n) : NULL; int bad = (n == 0);
             for (i = 0; i < n && !bad; i++) if (syms[i] < 0 || (size_t)syms[i] >= nc || norm[syms[i]] == 0) bad = 1;
